@@ -117,7 +117,12 @@ Inductive case :=
      single-frame forms *)
   | CSplit (train test : list row * list str)
            (xy_none xy_train xy_test : list row * list str)
-           (fr_none : list (row * str)).
+           (fr_none : list (row * str))
+  (* a HISTORY of loader calls on one dataset inside one process, with edits of returned objects by
+     the caller in between: the two files (per-dimension fingerprints as one-token series), the
+     operations, what each call returned at the time, and what the caller's objects are at the end *)
+  | CHistory (train test : list row * list str) (ops : list hop)
+             (returned final : list loaded).
 
 Definition rows_eqb : list row -> list row -> bool := list_eqb (list_eqb lines_eqb).
 Definition xy_eqb (m : res (list row * list str)) (i : list row * list str) : bool :=
@@ -130,6 +135,22 @@ Definition frame_eqb (m : res (list row * list str)) (i : list (row * str)) : bo
   | Ok Xy => list_eqb (fun a b => list_eqb lines_eqb (fst a) (fst b) && str_eqb (snd a) (snd b))
                       (single_frame Xy) i
   | Err => false
+  end.
+
+Definition frame_rows_eqb : list (row * str) -> list (row * str) -> bool :=
+  list_eqb (fun a b => list_eqb lines_eqb (fst a) (fst b) && str_eqb (snd a) (snd b)).
+Definition loaded_eqb (m : res loaded) (i : loaded) : bool :=
+  match m, i with
+  | Ok (LXy X y), LXy X' y' => rows_eqb X X' && lines_eqb y y'
+  | Ok (LFrame r), LFrame r' => frame_rows_eqb r r'
+  | _, _ => false
+  end.
+
+Fixpoint all2 {A B} (f : A -> B -> bool) (a : list A) (b : list B) : bool :=
+  match a, b with
+  | [], [] => true
+  | x :: a', y :: b' => f x y && all2 f a' b'
+  | _, _ => false
   end.
 
 Definition check (c : case) : bool :=
@@ -161,6 +182,10 @@ Definition check (c : case) : bool :=
       xy_eqb (load_dataset None ptr pte) xn && xy_eqb (load_dataset (Some Train) ptr pte) xtr
       && xy_eqb (load_dataset (Some Test) ptr pte) xte
       && frame_eqb (load_dataset None ptr pte) fn
+  | CHistory train test ops returned final =>
+      let st := run_history (Ok (fst train, Some (snd train))) (Ok (fst test, Some (snd test)))
+                            ops ([], []) in
+      all2 loaded_eqb (snd st) returned && all2 loaded_eqb (fst st) final
   end.
 
 Fixpoint mism (cs : list (Z * case)) : list Z :=
